@@ -11,13 +11,17 @@
    followed by a piece that would not have fitted on it; a word is cut (cov) only when it is
    longer than the width; the greedy partition is unique (C06_greedy_unique), hence wrapping
    text whose collapsed form is the pieces of an earlier wrap joined by single spaces gives
-   the same lines again (C06_wrap_again). That re-joining the lines with the line separator
-   and collapsing yields exactly that form depends on the separator (self-overlapping
-   separators), and, like the trailing separator, is judged on every generated case by
-   check_C06 and the wrap-twice cases. *)
+   the same lines again (C06_wrap_again). For the default line separator U+000A that is carried
+   through to the Editor: C06_wrap_stable_lf (the lines, joined by U+000A with or without a
+   trailing one, wrap to the same lines), C06_wrap_twice (Wrap(w) of the result of Wrap(w) is
+   that result, byte for byte) and C06_trailing_separator (the result ends with U+000A exactly
+   when the text did) - all under the safe-cluster condition. For other separators the
+   re-joined form depends on the separator (self-overlapping separators; a separator "-"
+   swallows the continuation hyphens) and is judged on every generated case by check_C06 and
+   the wrap-twice cases. *)
 From Coq Require Import List Bool ZArith Lia.
 Import ListNotations.
-From Rosed Require Import Base.Res Base.ListX Gem.Segment Gem.GString Model.Tb Model.Manip Model.Table Base.Str Proofs.SeamP Proofs.C13P Proofs.C06P Proofs.C06Q Proofs.C06R Proofs.C06S Proofs.SubaddP Proofs.C06T.
+From Rosed Require Import Base.Res Base.ListX Gem.Segment Gem.GString Model.Tb Model.Manip Model.Table Base.Str Proofs.SeamP Proofs.C13P Proofs.C06P Proofs.C06Q Proofs.C06R Proofs.C06S Proofs.SubaddP Proofs.C06T Proofs.C04P Proofs.C07Q Proofs.C06U Proofs.C06V Base.Utf8 Model.Options Model.Editor Model.Ops Base.Cls Inst.Go Inst.GoOk.
 Open Scope Z_scope.
 
 Theorem C06_clamp : forall (C : Classifier) text w sep, wrap text w sep = wrap text (Z.max w 2) sep.
@@ -95,3 +99,59 @@ Print Assumptions C06_width_every_text.
 Theorem C06_clusters_monotone_left : forall (C : Classifier) a b, glen a <= glen (a ++ b).
 Proof. intros C. exact glen_app_ge_left. Qed.
 Print Assumptions C06_clusters_monotone_left.
+
+(* stability for the default line separator: the lines of a wrap, joined by U+000A (with a
+   trailing U+000A or without), wrap to the same lines. safe_text: every cluster of the text
+   (line separators read as spaces) neither starts with an extending code point nor ends in a
+   Prepend one, and is either a white-space cluster or free of white space;
+   tl10 tr = if tr then [10] else [] *)
+Theorem C06_wrap_stable_lf : forall (C : Classifier) (K : ClassifierOk) (U : Upper) text w ct b tr,
+  safe_text (replace_all text [10] [SP]) -> collapse_space text [10] = Ok ct -> ct <> [] ->
+  wrap text w [10] = Ok b -> b_lines b <> [] ->
+  exists b', wrap (join [10] (b_lines b) ++ tl10 tr) w [10] = Ok b' /\ b_lines b' = b_lines b.
+Proof. intros C K U. exact wrap_stable_lf. Qed.
+Print Assumptions C06_wrap_stable_lf.
+
+(* Editor.Wrap twice: with the default line separator, outside paragraph mode, wrapping the
+   result of a wrap to the same width returns it unchanged - text, options and parent link *)
+Theorem C06_wrap_twice : forall (C : Classifier) (K : ClassifierOk) (U : Upper) rs o0 ref o w e1,
+  scalars rs -> o_linesep (with_defaults o) = [10] -> o_preserve (with_defaults o) = false ->
+  safe_text (replace_all rs [10] [SP]) ->
+  wrap_opts w o (Ed (encode rs) o0 ref) = Ok e1 -> wrap_opts w o e1 = Ok e1.
+Proof. intros C K U. exact wrap_editor_stable. Qed.
+Print Assumptions C06_wrap_twice.
+
+(* ... and the result ends with the line separator exactly when the text did *)
+Theorem C06_trailing_separator : forall (C : Classifier) (K : ClassifierOk) (U : Upper) rs o0 ref o w e1,
+  scalars rs -> o_linesep (with_defaults o) = [10] -> o_preserve (with_defaults o) = false ->
+  safe_text (replace_all rs [10] [SP]) ->
+  wrap_opts w o (Ed (encode rs) o0 ref) = Ok e1 -> has_suffix (e_text e1) [10] = has_suffix (encode rs) [10].
+Proof. intros C K U. exact wrap_editor_trailing. Qed.
+Print Assumptions C06_trailing_separator.
+
+(* the premises of C06_wrap_twice can be met with the classifier regenerated from the Go source:
+   "e" U+0301 "b cd  a" LF wrapped to width 4 is "e" U+0301 "b" LF "cd a" LF *)
+Definition C06_rs_ex : list Z := [101; 769; 98; 32; 99; 100; 32; 32; 97; 10].
+Definition C06_out_ex : list Z := encode [101; 769; 98; 10; 99; 100; 32; 97; 10].
+
+Example C06_wrap_twice_premises_met :
+  scalars C06_rs_ex /\ o_linesep (with_defaults zero_options) = [10] /\ o_preserve (with_defaults zero_options) = false /\
+  safe_text (replace_all C06_rs_ex [10] [SP]) /\
+  wrap_opts 4 zero_options (Ed (encode C06_rs_ex) zero_options None) = Ok (Ed C06_out_ex zero_options None).
+Proof.
+  split; [repeat constructor|]. split; [reflexivity|]. split; [reflexivity|]. split; [|vm_compute; reflexivity].
+  assert (E0 : replace_all C06_rs_ex [10] [SP] = [101; 769; 98; 32; 99; 100; 32; 32; 97; 32]) by (vm_compute; reflexivity).
+  assert (E1 : clusters [101; 769; 98; 32; 99; 100; 32; 32; 97; 32] = [[101; 769]; [98]; [32]; [99]; [100]; [32]; [32]; [97]; [32]]) by (vm_compute; reflexivity).
+  assert (Hc : forall r, In r [97; 98; 32; 99; 100; 101] -> go_class_of r = Other).
+  { intros r Hr. cbn [In] in Hr. repeat (destruct Hr as [<-|Hr]; [vm_compute; reflexivity|]). destruct Hr. }
+  assert (H769 : go_class_of 769 = Extend) by (vm_compute; reflexivity).
+  assert (Hs : forall x, In x [97; 98; 32; 99; 100; 101] -> forall t, starts_ok (x :: t)).
+  { intros x Hx t. cbn [starts_ok]. change (@class_of GoClassifier x) with (go_class_of x). rewrite (Hc x Hx). repeat split; discriminate. }
+  assert (He1 : forall x, In x [97; 98; 32; 99; 100; 101] -> ends_ok [x]).
+  { intros x Hx. right. cbn [List.last]. change (@class_of GoClassifier x) with (go_class_of x). rewrite (Hc x Hx). discriminate. }
+  assert (He2 : ends_ok [101; 769]).
+  { right. cbn [List.last]. change (@class_of GoClassifier 769) with (go_class_of 769). rewrite H769. discriminate. }
+  unfold safe_text. rewrite E0, E1.
+  repeat (apply Forall_cons; [split; [split; [apply Hs; cbn [In]; tauto|first [exact He2|apply He1; cbn [In]; tauto]]|first [left; reflexivity|right; repeat constructor]]|]).
+  apply Forall_nil.
+Qed.
